@@ -87,6 +87,49 @@ CHECKS.update({
     },
 })
 
+SEQ_NOTE = (
+    "Trusted: TLC 1.8.0; the concretisation of abstract cases into bytes and the independent parsers that read what the client wrote "
+    "(hand-written HTTP/1.1 parser, hyperframe+hpack for HTTP/2, SOCKS5 parser in harness/peers.py); the simulated network's segmentation. "
+    "The abstract case space is enumerated (exhaustively in the thorough tier where stated); bytes inside a token class are sampled (seeded)."
+)
+CHECKS.update({
+    "C02": {
+        "category": "model_checking",
+        "text": "TLC proves on Framing.tla's reference receiver that for EVERY cut set the outcome equals Expected(case) and that deliveries are prefix-safe (millions of states: cases x all cut sets x truncation points); concretised responses (HTTP/1.1: Content-Length / chunked / close-delimited / bodiless, interim 1xx, header shapes; HTTP/2: HEADERS/DATA layouts, resets) are received by the real connections under chosen segmentations (one read, one byte at a time, cuts around every structural offset) and truncations, and TLC judges every observation sequence (FramingTrace).",
+        "design_ref": "DESIGN.md 4.4, 5 (C02)",
+        "technique": "TLA+ model checking of a reference receiver (TLC) + trace validation of observations from the real receivers",
+        "note": SEQ_NOTE,
+    },
+    "C03": {
+        "category": "model_checking",
+        "text": "ReqWire.tla defines, for every request shape (method, target kind incl. the target extension and '*', header list shape, caller-supplied Host / Content-Length / Transfer-Encoding, body as bytes or any iterator chunking, illegal heads), what an independent parser must read from the wire on HTTP/1.1 and HTTP/2; TLC checks the default-header laws over the whole shape space and judges what the parsers read from the bytes the real pool wrote (first use and reuse of the connection, sync and async twin).",
+        "design_ref": "DESIGN.md 4.6, 5 (C03)",
+        "technique": "TLA+ specification as enumerator and oracle (TLC) + trace validation of parsed wire images",
+        "note": SEQ_NOTE,
+    },
+    "C15": {
+        "category": "exploration",
+        "text": "Errors.tla is the taxonomy stage x cause -> allowed exception classes (TLC checks it is closed under the documented set); malformed inputs of every class at every stage (HTTP/1.1 head/body, HTTP/2 preface/frames/HPACK/:status, CONNECT replies, SOCKS5 replies), seeded mutations of valid conversations, every backend exception at every operation and invalid requests are run through the real pool, and TLC judges the class (and defining module) of what the caller saw; a hang has no action. 'Every byte sequence' is unbounded, so this is an exploration with a TLA+ oracle.",
+        "design_ref": "DESIGN.md 4.8, 5 (C15)",
+        "technique": "exploration (enumerated malformation classes + seeded mutation) judged by a TLA+ taxonomy with TLC",
+        "note": SEQ_NOTE,
+    },
+    "C17": {
+        "category": "model_checking",
+        "text": "TLC proves Conservation / Bounded on Upgrade.tla for every tail length, lead, cut set and max_bytes sequence within the bounds; the real HTTP/1.1 connection is driven through 101 and CONNECT-2xx responses with those segmentations and read sequences (sync and async twin) and TLC replays every recorded read in lock step; afterwards the connection must not be idle and writes must have passed through unchanged.",
+        "design_ref": "DESIGN.md 4.5, 5 (C17)",
+        "technique": "TLA+ model checking (TLC) + lock-step trace validation",
+        "note": SEQ_NOTE,
+    },
+    "C19": {
+        "category": "model_checking",
+        "text": "UrlModel.tla gives RFC 3986 component splitting over URL shapes (scheme, userinfo, host kind incl. IPv6 literals, port kind, path kind incl. ';parameters' / dot segments / escapes, query, fragment, str/bytes) with the origin and Host-header laws checked by TLC over the shape space; every shape is concretised, parsed by httpcore.URL, serialised and re-parsed, sent through a pool to read the Host header off the wire, and judged by TLC (UrlTrace).",
+        "design_ref": "DESIGN.md 4.7, 5 (C19)",
+        "technique": "TLA+ specification as enumerator and oracle (TLC) + trace validation of observations",
+        "note": SEQ_NOTE,
+    },
+})
+
 NOT_YET = {
     "C01": "not claimed yet: Pool/H2Conn trace clauses for response ownership are under construction",
     "C02": "not claimed yet: Framing module under construction",
